@@ -531,7 +531,7 @@ func init() {
 	vk.Register(&vk.Spec{
 		ID:          "C03",
 		Level:       "exploration",
-		Rule:        "per round a PRNG key list (2..13 keys, mixed ciphers, AES keys placed before the matching key, duplicates) serves 10..30 client addresses (v4/v6); each client first sends invalid datagrams (random, shorter than salt / salt+tag, not-configured key, bit flip), then a valid sequence to four targets (two ports on one IPv4, another IPv4, IPv6) with payload sizes 0..the largest that fits and 0..2 replies of 8..20000 bytes, interleaved with datagrams under another configured key on the live association; every payload carries a unique id; class = (phase, cipher, key position, size bucket, target, first-on-association)",
+		Rule:        "per round a PRNG key list (2..13 keys, mixed ciphers, AES keys placed before the matching key, duplicates) serves 10..30 client addresses (v4/v6); each client first sends invalid datagrams (random, shorter than salt / salt+tag, not-configured key, bit flip), then a valid sequence to four targets (two ports on one IPv4, another IPv4, IPv6) with payload sizes 0..the largest that fits and 0..2 replies of 8..20000 bytes, interleaved with datagrams under another configured key on the live association; every payload carries a unique id; the destination is written in every form (IP, IPv4-mapped IPv6, IP literal as domain, host name); one packet handler serving TWO listeners (as the binary wires a services: entry): 8 concurrent clients with equal-size datagrams, one client socket on both listeners under two keys; class = (phase, cipher, key position, size bucket, target, first-on-association)",
 		Assumptions: []string{"a 'fence' datagram orders observations: when it reaches the target, everything the server received earlier has been handled (single receive loop, synchronous loopback delivery)", "B = 10 s bounded-progress restatement"},
 		Batches:     func(t string) int { return map[string]int{"quick": 6, "thorough": 24}[t] },
 		Parallel:    func(t string) int { return 6 },
